@@ -33,6 +33,15 @@ class Unsupported(Exception):
         super().__init__("%s: %s (%s)" % (node.get("kind"), why, loc))
 
 
+class NeedPartial(Unsupported):
+    """raised while translating a function in total mode when it needs the partial (fuel / Option) form"""
+    pass
+
+
+# lower bounds of the Nat-valued loop variables currently in scope (ext mode): lets `i - 1` be emitted for a loop from 1
+NAT_LO = {}
+
+
 class Const:
     """compile-time integer"""
     def __init__(self, v):
@@ -62,6 +71,12 @@ class NatExpr:
 
     @property
     def t(self):
+        if self.const < 0 and self.coeffs and all(v > 0 for v in self.coeffs.values()) and \
+                all(k in NAT_LO for k in self.coeffs) and \
+                self.const + sum(v * NAT_LO[k] for k, v in self.coeffs.items()) >= 0:
+            # ext mode: the loop variables' lower bounds make the truncated subtraction exact
+            parts = ["%d * %s" % (v, k) if v != 1 else k for k, v in sorted(self.coeffs.items())]
+            return "(" + " + ".join(parts) + " - %d)" % (-self.const)
         if self.const < 0 or any(v < 0 for v in self.coeffs.values()):
             raise Unsupported({"kind": "index"}, "index expression with a negative coefficient")
         parts = ["%d * %s" % (v, k) if v != 1 else k for k, v in sorted(self.coeffs.items())]
@@ -171,7 +186,7 @@ def _classify(t):
 
 LEAN_TY = {"u64": "BitVec 64", "bool": "Bool", "v4": "V4", "v8": "V8", "m8": "BitVec 8",
            "m16": "BitVec 16", "ptr": "Region", "arr": "Region", "int": "Int",
-           "vr4": "VRegion4", "vr8": "VRegion8", "u32": "BitVec 32"}
+           "vr4": "VRegion4", "vr8": "VRegion8", "u32": "BitVec 32", "nat": "Nat"}
 
 ZERO_OF = {"u64": "0#64", "bool": "false", "v4": "V4.zero", "v8": "V8.zero", "m8": "0#8", "m16": "0#16",
            "ptr": "Region.zero", "arr": "Region.zero", "int": "(0 : Int)", "vr4": "VRegion4.zero", "vr8": "VRegion8.zero",
@@ -253,6 +268,10 @@ INTRIN["__builtin_ia32_psllqi512"] = ("Avx512.slli_epi64", "vc")
 INTRIN["__builtin_ia32_selectd_512"] = ("Avx512.selectd_512", "vvv")
 INTRIN["__builtin_ia32_selectq_512"] = ("Avx512.selectq_512", "vvv")
 
+# ext mode: library / runtime functions that are not translated
+ABORT_FNS = {"exit", "_exit", "abort", "quick_exit", "_Exit"}     # end the process: the partial function returns `none`
+EXTERN_VALUES = {"omp_get_max_threads": "Omp.maxThreads"}        # value-returning externs: Lean term (Model/TrRt.lean)
+
 ENUM_CONSTS = {"_MM_CMPINT_EQ": 0, "_MM_CMPINT_LT": 1, "_MM_CMPINT_LE": 2, "_MM_CMPINT_UNUSED": 3,
                "_MM_CMPINT_NE": 4, "_MM_CMPINT_NLT": 5, "_MM_CMPINT_NLE": 6}
 
@@ -278,6 +297,7 @@ class FnInfo:
         self.text = None
         self.decl = None
         self.outs = []       # ordered: ('ret', cat) / ('param', index)
+        self.partial = False  # ext mode: takes `fuel`, returns Option (fuel-bounded loop / process-ending call inside)
 
 
 class Translator:
@@ -295,6 +315,7 @@ class Translator:
         self.items = []
         self.prior_fns = {}    # def id -> FnInfo of functions emitted by earlier modules (qualified names)
         self.prior_consts = {} # var def id -> qualified lean name
+        self.ext = False       # extended subset (while loops, early exits, partial functions, OpenMP loops, VLAs)
 
     # ------------------------------------------------------------ naming
     def fn_lean_name(self, d):
@@ -331,7 +352,16 @@ class Translator:
             raise Unsupported(def_decl, "recursion")
         self.in_progress.add(key)
         try:
-            info = FnCtx(self, def_decl).translate(alias=alias)
+            try:
+                info = FnCtx(self, def_decl).translate(alias=alias)
+            except Unsupported as e0:
+                if not self.ext:
+                    raise
+                # outside the basic subset: extended mode, total form first, partial form when required
+                try:
+                    info = FnCtx(self, def_decl, ext=True, partial=isinstance(e0, NeedPartial)).translate(alias=alias)
+                except NeedPartial:
+                    info = FnCtx(self, def_decl, ext=True, partial=True).translate(alias=alias)
         finally:
             self.in_progress.discard(key)
         info.key = key
@@ -394,7 +424,7 @@ class Translator:
 
 
 class FnCtx:
-    def __init__(self, tr, decl):
+    def __init__(self, tr, decl, ext=False, partial=False):
         self.tr = tr
         self.ast = tr.ast
         self.decl = decl
@@ -402,6 +432,12 @@ class FnCtx:
         self.lines = []
         self.indent = 1
         self.tmpn = 0
+        self.ext = ext          # extended subset (see the "extended mode" section below)
+        self.partial = partial  # the function takes `fuel` and returns Option
+        self.loop_stack = []    # lifted loop bodies being translated: dict(term=fn(kind))
+        self.binds = 0          # number of Option binds emitted so far
+        self.no_hoist = 0       # > 0 inside conditionally evaluated sub-expressions
+        self.alias_of = {}      # local pointer decl id -> decl id of the pointer it was initialised from
 
     # ------------------------------------------------------------ helpers
     def show(self, t):
@@ -475,7 +511,8 @@ class FnCtx:
             if c[0] == "u64":
                 return Const(8)
             if c[0] == "arr" and c[1][1]:
-                return Const(8 * self.array_total(at))
+                # a typedef'd row type (Goldilocks3::Element) has no brackets in its spelling: its length is c[1][1]
+                return Const(8 * (self.array_total(at) if "[" in at else c[1][1]))
             raise Unsupported(n, "sizeof(%s)" % at)
         if k in ("ImplicitCastExpr", "CStyleCastExpr", "CXXStaticCastExpr", "CXXFunctionalCastExpr",
                  "CXXReinterpretCastExpr"):
@@ -514,6 +551,8 @@ class FnCtx:
                 if isinstance(v, Const):
                     return "true" if v.v != 0 else "false"
                 return "(%s != 0#64)" % v
+            if self.ext and ck == "FloatingToIntegral" and classify(qt(n))[0] == "u64":
+                return "(F64.toU64 %s)" % self.dbl(inner)
             raise Unsupported(n, "cast kind %s" % ck)
         if k == "DeclRefExpr":
             return self.ref(n)
@@ -561,8 +600,12 @@ class FnCtx:
             return self.binop(n)
         if k == "ConditionalOperator":
             c = self.cond(n["inner"][0])
-            a = self.ex(n["inner"][1])
-            b = self.ex(n["inner"][2])
+            self.no_hoist += 1
+            try:
+                a = self.ex(n["inner"][1])
+                b = self.ex(n["inner"][2])
+            finally:
+                self.no_hoist -= 1
             return "(if %s then %s else %s)" % (c, self.as_u64(a), self.as_u64(b))
         if k == "CallExpr":
             return self.call_expr(n)
@@ -607,6 +650,9 @@ class FnCtx:
         """pointer-valued expression -> Lean Region term"""
         n = self.skip(n)
         k = n.get("kind")
+        if self.ext and k == "CStyleCastExpr" and n.get("castKind") == "LValueBitCast":
+            # (Element (&)[N]) p[k]: the region starting at element k
+            return self.region({"kind": "UnaryOperator", "opcode": "&", "inner": [n["inner"][0]]})
         if k in ("ImplicitCastExpr", "CStyleCastExpr", "CXXReinterpretCastExpr", "CXXStaticCastExpr"):
             return self.region(n["inner"][0])
         if k == "DeclRefExpr":
@@ -628,6 +674,13 @@ class FnCtx:
             i = self.as_nat(self.ex(n["inner"][1]), n)
             return "(Region.shift %s %s)" % (b, i)
         if k == "ArraySubscriptExpr":
+            if self.ext:
+                w = self.row_words(n)
+                if w is not None:
+                    # a[i] where a is an array of / pointer to fixed-size rows (Goldilocks3::Element): the row as a region
+                    b = self.region(n["inner"][0])
+                    off = self.scaled_index(n["inner"][1], w)
+                    return b if off == "0" else "(Region.shift %s %s)" % (b, off)
             # element of an array of arrays (e.g. Goldilocks3::Element a[4]) is not supported here
             raise Unsupported(n, "nested array")
         if k == "CallExpr":
@@ -653,7 +706,15 @@ class FnCtx:
         ca = classify(qt(a))[0]
         if ca == "ptr" or classify(qt(b))[0] == "ptr":
             raise Unsupported(n, "pointer arithmetic in value context")
-        x, y = self.ex(a), self.ex(b)
+        x = self.ex(a)
+        if op in ("&&", "||"):
+            self.no_hoist += 1
+            try:
+                y = self.ex(b)
+            finally:
+                self.no_hoist -= 1
+        else:
+            y = self.ex(b)
         if (isinstance(x, NatExpr) or isinstance(y, NatExpr)) and (isinstance(x, (NatExpr, Const)) and isinstance(y, (NatExpr, Const))):
             X, Y = NatExpr.lift(x), NatExpr.lift(y)
             if op == "+":
@@ -684,6 +745,10 @@ class FnCtx:
                 return "true" if g[op](x.v, y.v) else "false"
         opcat = ca if ca != "int" else classify(qt(b))[0]
         if opcat == "int" and cat in ("int", "bool"):
+            if self.ext and op in ("==", "!=", "<", ">", "<=", ">="):
+                # run-time `int` values (thread counts): comparisons over Int
+                lop = {"==": "=", "!=": "≠", "<=": "≤", ">=": "≥"}.get(op, op)
+                return "(decide ((%s : Int) %s (%s : Int)))" % (self.show(x), lop, self.show(y))
             raise Unsupported(n, "non-constant int arithmetic")
         xs, ys = self.as_u64(x), self.as_u64(y)
         if op in ("+", "-", "*", "&", "|", "^"):
@@ -734,6 +799,8 @@ class FnCtx:
         if len(cands) != 1:
             raise Unsupported(n, "cannot resolve operator target " + tgt)
         info = self.tr.need_fn(cands[0])
+        if info.partial:
+            return self.pcall(n, "%s fuel %s" % (info.lean_name, " ".join(self.as_u64(self.ex(a)) for a in args)))
         return "(%s %s)" % (info.lean_name, " ".join(self.as_u64(self.ex(a)) for a in args))
 
     def call_expr(self, n):
@@ -745,12 +812,16 @@ class FnCtx:
             return self.intrin(n, name, args)
         d = self.ast.resolve_fn(rd["id"])
         if d is None:
+            if self.ext and name in EXTERN_VALUES and not args:
+                return EXTERN_VALUES[name]
             raise Unsupported(n, "call to unknown function " + name)
         info = self.tr.need_fn(d)
         if any(p["mode"] != "in" for p in info.params):
             # value position with out-params: hoist into a let
             res = self.call_stmt(n, want_value=True)
             return res
+        if info.partial:
+            return self.pcall(n, "%s fuel%s" % (info.lean_name, "".join(" " + self.arg_in(p, a) for p, a in zip(info.params, args))))
         return "(%s%s)" % (info.lean_name, "".join(" " + self.arg_in(p, a) for p, a in zip(info.params, args)))
 
     def arg_in(self, p, a):
@@ -822,8 +893,18 @@ class FnCtx:
         """pointer argument bound to a writable pointer parameter"""
         a0 = self.skip(a)
         k = a0.get("kind")
+        if self.ext and k == "CStyleCastExpr" and a0.get("castKind") == "LValueBitCast":
+            return self.lvalue_region({"kind": "UnaryOperator", "opcode": "&", "inner": [a0["inner"][0]]})
         if k in ("CStyleCastExpr", "ImplicitCastExpr", "CXXReinterpretCastExpr"):
             return self.lvalue_region(a0["inner"][0])
+        if self.ext and k == "ArraySubscriptExpr":
+            w = self.row_words(a0)
+            if w is not None:
+                bt, bw = self.lvalue_region(a0["inner"][0])
+                off = self.scaled_index(a0["inner"][1], w)
+                if off == "0":
+                    return bt, bw
+                return "(Region.shift %s %s)" % (bt, off), (lambda new: bw("(Region.unshift %s %s %s)" % (bt, off, new)))
         if k == "DeclRefExpr":
             rid = a0["referencedDecl"]["id"]
             if rid not in self.env:
@@ -856,17 +937,20 @@ class FnCtx:
         if name in ("memcpy", "memset"):
             nbytes = self.ex(args[2])
             if not isinstance(nbytes, Const) or nbytes.v % 8 != 0:
-                raise Unsupported(n, "%s with a non-constant or unaligned byte count" % name)
-            cnt = nbytes.v // 8
+                if not (self.ext and not isinstance(nbytes, Const)):
+                    raise Unsupported(n, "%s with a non-constant or unaligned byte count" % name)
+                cnt = self.word_count(args[2], nbytes)
+            else:
+                cnt = "%d" % (nbytes.v // 8)
             bt, bw = self.lvalue_region(args[0])
             if name == "memcpy":
                 src = self.region(args[1])
-                bw("(Region.copyN %s %s %d)" % (bt, src, cnt))
+                bw("(Region.copyN %s %s %s)" % (bt, src, cnt))
             else:
                 v = self.ex(args[1])
                 if not (isinstance(v, Const) and v.v == 0):
                     raise Unsupported(n, "memset with a non-zero fill")
-                bw("(Region.zeroN %s %d)" % (bt, cnt))
+                bw("(Region.zeroN %s %s)" % (bt, cnt))
             return None
         if name in INTRIN:
             lname, kinds = INTRIN[name]
@@ -880,6 +964,8 @@ class FnCtx:
             return None   # pure intrinsic as a statement: no effect
         d = self.ast.resolve_fn(rd["id"])
         if d is None:
+            if self.ext and name in EXTERN_VALUES:
+                return EXTERN_VALUES[name] if want_value else None
             raise Unsupported(n, "call to unknown function " + name)
         info = self.tr.need_fn(d)
         # the same variable passed for a written parameter and for another parameter: aliased call pattern
@@ -917,17 +1003,27 @@ class FnCtx:
                 wbs.append(wb)
         if len(args) < len(info.params):
             raise Unsupported(n, "default arguments")
-        call = "%s%s" % (info.lean_name, "".join(" " + i for i in ins))
+        call = "%s%s%s" % (info.lean_name, " fuel" if info.partial else "", "".join(" " + i for i in ins))
         nouts = len(info.outs)
+        if info.partial:
+            self.need_partial(n)
         if nouts == 0:
+            if info.partial:
+                self.pbind(call, self.fresh("u"))      # only the effect: the call can end the process
             return None
         tmps = [self.fresh("r") for _ in range(nouts)]
         if nouts == 1:
-            self.emit("let %s := %s" % (tmps[0], call))
+            if info.partial:
+                self.pbind(call, tmps[0])
+            else:
+                self.emit("let %s := %s" % (tmps[0], call))
         else:
             # no pattern-lets (they elaborate to `match`): bind the tuple, then project
             tt = self.fresh("rt")
-            self.emit("let %s := %s" % (tt, call))
+            if info.partial:
+                self.pbind(call, tt)
+            else:
+                self.emit("let %s := %s" % (tt, call))
             for k, t in enumerate(tmps):
                 proj = tt + ".2" * k + (".1" if k < nouts - 1 else "")
                 self.emit("let %s := %s" % (t, proj))
@@ -952,6 +1048,8 @@ class FnCtx:
             e = self.env[rid]
             if e.get("const") is not None:
                 raise Unsupported(lhs, "assignment to loop constant")
+            if self.ext and e["cat"] in ("ptr", "arr", "nat"):
+                raise Unsupported(lhs, "assignment to a pointer / loop index")
             if e["cat"] == "u64":
                 rhs_term = self.as_u64(rhs_term)
             self.emit("let %s := %s" % (e["name"], self.show(rhs_term)))
@@ -972,6 +1070,10 @@ class FnCtx:
     def stmt(self, n):
         """translate a statement; returns 'ret' term if the statement is a return, else None"""
         k = n.get("kind")
+        if self.ext:
+            r = self.stmt_ext(n)
+            if r is not NotImplemented:
+                return r
         if k == "CompoundStmt":
             inner = n.get("inner", [])
             for i, s in enumerate(inner):
@@ -1087,9 +1189,19 @@ class FnCtx:
             raise Unsupported(v, "declaration kind")
         cat, ex = classify(v["type"]["qualType"])
         name = lean_ident(v["name"])
+        if self.ext and cat == "other" and re.search(r"\[[^\]]*[A-Za-z_][^\]]*\]\s*$", v["type"]["qualType"]) and \
+                "Element" in v["type"]["qualType"]:
+            # run-time sized stack array of (rows of) field elements: a region, content unspecified (modelled as zero)
+            self.env[v["id"]] = {"name": name, "cat": "arr", "const": None}
+            self.emit("let %s : Region := Region.zero" % name)
+            return
         if cat == "other":
             raise Unsupported(v, "local of type " + v["type"]["qualType"])
         init = [c for c in v.get("inner", []) if "kind" in c]
+        if self.ext and cat == "ptr" and v["id"] in self.alias_of and self.alias_of[v["id"]] in self.env:
+            # `T *p = q;` (p never reassigned): p is another name of q's region, writes through p are writes to q
+            self.env[v["id"]] = self.env[self.alias_of[v["id"]]]
+            return
         self.env[v["id"]] = {"name": name, "cat": cat, "const": None}
         if cat == "int":
             # int locals are only supported as compile-time constants
@@ -1155,7 +1267,10 @@ class FnCtx:
         found = []
 
         def note(rid):
+            rid = self.alias_of.get(rid, rid)
             if rid in self.env and rid not in found:
+                if self.ext and any(self.env[f] is self.env[rid] for f in found):
+                    return      # another name of a variable already noted (pointer alias)
                 found.append(rid)
 
         def base_var(x):
@@ -1243,8 +1358,27 @@ class FnCtx:
     def if_join(self, c, then_stmts, else_stmts, n):
         vs = self.assigned_vars(then_stmts + else_stmts)
         names = [self.env[r]["name"] for r in vs]
+        b0 = self.binds
         tl, tr_ = self.run_block(then_stmts)
         el, er = self.run_block(else_stmts)
+        if self.ext and self.binds > b0:
+            # a branch contains a call that can end the process: the join goes through Option
+            if tr_ is not None or er is not None:
+                raise Unsupported(n, "return inside a conditional")
+            tup = self.tuple_of(names)
+            ind = "  " * self.indent
+            jn = self.fresh("j")
+            self.emit("(if %s then" % c)
+            self.lines.extend(tl)
+            self.lines.append(ind + "    some " + tup)
+            self.emit("  else")
+            self.lines.extend(el)
+            self.lines.append(ind + "    some " + tup)
+            self.emit("  ).bind fun %s =>" % jn)
+            self.binds += 1
+            for i, nm in enumerate(names):
+                self.emit("let %s := %s" % (nm, self.proj(i, len(names), jn)))
+            return None
         if tr_ is not None or er is not None:
             if tr_ is not None and er is not None:
                 # both branches return: the if is the tail
@@ -1282,6 +1416,11 @@ class FnCtx:
 
     # ---- for
     def forstmt(self, n):
+        if self.ext:
+            return self.forstmt_ext(n)
+        return self.forstmt_basic(n)
+
+    def forstmt_basic(self, n):
         inner = n["inner"]
         # clang: [init, condvar(empty {}), cond, inc, body]
         init, cond, inc, body = inner[0], inner[2], inner[3], inner[4]
@@ -1321,6 +1460,8 @@ class FnCtx:
             h = hi.v + (1 if c0["opcode"] == "<=" else 0)
             trips = max(0, (h - lo.v + step - 1) // step)
             if trips <= self.tr.unroll_max:
+                if self.ext and self.contains_abrupt(body_stmts):
+                    raise Unsupported(n, "break/continue/return in an unrolled loop")
                 for t in range(trips):
                     self.env[ivid] = {"name": name, "cat": icat, "const": Const(lo.v + t * step)}
                     saved = dict(self.env)
@@ -1337,6 +1478,8 @@ class FnCtx:
             if c0["opcode"] != "<":
                 raise Unsupported(n, "symbolic for bound with <=/!=")
             hi_term = self.as_nat(hi, c0)
+        if self.ext:
+            return self.for_fold_ext(n, ivid, name, lo, hi_term, step, body_stmts)
         # fold: the loop body is LIFTED to an auxiliary top-level definition (an inline lambda returning a Region is
         # eta-expanded by Lean's compiler, which re-runs the body on every element read: exponential run time)
         self.env[ivid] = {"name": name, "cat": "nat", "const": None}
@@ -1381,6 +1524,493 @@ class FnCtx:
         for i, nm in enumerate(names):
             self.emit("let %s := %s" % (nm, proj(i, len(names), stv)))
         self.env.pop(ivid, None)
+
+    # ================================================================ extended mode
+    # Constructs outside the basic subset.  A function is first translated in basic mode (so that everything the basic
+    # subset covers keeps its exact output); when that raises Unsupported and the module allows it, it is translated
+    # again in extended mode (`self.ext`), in the partial form (`self.partial`: extra parameter `fuel`, result in Option)
+    # when it contains a fuel-bounded loop, a call that ends the process, or a call to a partial function.
+    #
+    #  * statement lists are translated by `seq`: `return` / `break` / `continue` / process-ending calls anywhere inside
+    #    nested `if`s end the current path with a TERMINAL (function result, loop-step result, `none`); the statements
+    #    after an `if` with such exits are continued inside the branches that fall through.
+    #  * `while`, `for(;;)` and `for` loops whose trip count is not an affine function known before the loop become
+    #    `Loop.whileM step fuel state` with a lifted step function `<fn>_loopN : σ → Option (Bool × σ)`.
+    #  * counted loops keep the `Loop.range` form; in partial functions their lifted body returns `Option σ` (`Loop.rangeM`).
+    #  * `#pragma omp parallel for`: the loop is translated sequentially (clauses dropped).
+    #  * local pointers initialised from another pointer are names of the same region; `a[i]` on arrays of fixed-size rows,
+    #    run-time sized stack arrays, memcpy/memset with run-time sizes, `floor` on doubles that hold integers.
+
+    def need_partial(self, n):
+        if not self.partial:
+            raise NeedPartial(n, "needs the partial (fuel / Option) form")
+
+    def pbind(self, call, var):
+        self.emit("(%s).bind fun %s =>" % (call, var))
+        self.binds += 1
+
+    def pcall(self, n, call):
+        """call of a partial function in value position: hoisted into a bind"""
+        self.need_partial(n)
+        if self.no_hoist:
+            raise Unsupported(n, "call that can end the process inside a conditionally evaluated expression")
+        v = self.fresh("r")
+        self.pbind(call, v)
+        return v
+
+    def tuple_of(self, names):
+        if not names:
+            return "()"
+        return names[0] if len(names) == 1 else "(" + ", ".join(names) + ")"
+
+    def proj(self, i, n_, v):
+        return v + ".2" * i + (".1" if i < n_ - 1 else "") if n_ > 1 else v
+
+    def tuple_type(self, cats):
+        return " × ".join(LEAN_TY[c] for c in cats) if cats else "Unit"
+
+    def row_words(self, n):
+        """for a[i]: number of words of one row when the element type is a fixed-size array of field elements"""
+        c, ex = classify(qt(n))
+        if c == "arr" and ex[0] == "u64" and ex[1]:
+            return ex[1]
+        return None
+
+    def scaled_index(self, idx, w):
+        v = self.ex(idx)
+        if isinstance(v, Const):
+            if v.v < 0:
+                raise Unsupported(idx, "negative index")
+            return str(v.v * w)
+        if isinstance(v, NatExpr):
+            return v.scale(w).t
+        return "(%d * %s)" % (w, self.as_nat(v, idx))
+
+    def has_word_factor(self, n):
+        n = self.skip(n)
+        k = n.get("kind")
+        if k in ("ImplicitCastExpr", "CStyleCastExpr", "CXXStaticCastExpr") and n.get("inner"):
+            return self.has_word_factor(n["inner"][0])
+        if k == "BinaryOperator" and n.get("opcode") == "*":
+            return self.has_word_factor(n["inner"][0]) or self.has_word_factor(n["inner"][1])
+        if k == "UnaryExprOrTypeTraitExpr" and n.get("name") == "sizeof":
+            v = self.ex(n)
+            return isinstance(v, Const) and v.v % 8 == 0
+        if k == "IntegerLiteral":
+            return int(n["value"]) % 8 == 0
+        return False
+
+    def word_count(self, node, nbytes):
+        """memcpy/memset byte count that is not a constant: it must be a product with a multiple of the word size; the
+        count of words is the (wrapping, as in C++) byte count divided by 8"""
+        if not self.has_word_factor(node):
+            raise Unsupported(node, "byte count that is not visibly a multiple of the element size")
+        return "((%s).toNat / 8)" % self.as_u64(nbytes)
+
+    def dbl(self, n):
+        """expression of type double whose value is an integer (see F64 in Model/TrRt.lean) -> Lean Nat term"""
+        n = self.skip(n)
+        k = n.get("kind")
+        if k == "ImplicitCastExpr" and n.get("castKind") == "IntegralToFloating":
+            v = self.ex(n["inner"][0])
+            if isinstance(v, Const):
+                if v.v < 0:
+                    raise Unsupported(n, "negative double")
+                return "(F64.ofNat %d)" % v.v
+            if classify(qt(n["inner"][0]))[0] != "u64":
+                raise Unsupported(n, "conversion of a signed integer to double")
+            return "(F64.ofU64 %s)" % self.as_u64(v)
+        if k == "BinaryOperator" and n.get("opcode") == "+":
+            return "(F64.add %s %s)" % (self.dbl(n["inner"][0]), self.dbl(n["inner"][1]))
+        if k == "CallExpr" and self.callee(n).get("name") in ("floor", "__builtin_floor"):
+            a = n["inner"][1]
+            if classify(qt(a))[0] == "u64":
+                # std::floor(integer): the argument is converted to double first
+                return "(F64.floor (F64.ofU64 %s))" % self.as_u64(self.ex(a))
+            return "(F64.floor %s)" % self.dbl(a)
+        raise Unsupported(n, "floating-point expression")
+
+    def find_pointer_aliases(self, body):
+        """locals `T *p = q;` with q a pointer parameter / local, p never assigned again"""
+        decls, reassigned = {}, set()
+
+        def base_ref(x):
+            x = self.skip(x)
+            while x.get("kind") in ("ImplicitCastExpr", "CStyleCastExpr") and x.get("inner"):
+                x = self.skip(x["inner"][0])
+            if x.get("kind") == "DeclRefExpr":
+                return x["referencedDecl"]["id"]
+            return None
+
+        def walk(x):
+            if not isinstance(x, dict):
+                return
+            if x.get("kind") == "VarDecl" and classify(x.get("type", {}).get("qualType", ""))[0] == "ptr":
+                init = [c for c in x.get("inner", []) if "kind" in c]
+                if init:
+                    r = base_ref(init[0])
+                    if r is not None:
+                        decls[x["id"]] = r
+            if x.get("kind") == "BinaryOperator" and x.get("opcode") == "=":
+                r = base_ref(x["inner"][0])
+                if r is not None:
+                    reassigned.add(r)
+            for c in x.get("inner", []):
+                walk(c)
+        walk(body)
+        for vid, tgt in decls.items():
+            if vid in reassigned:
+                continue
+            seen = set()
+            while tgt in decls and tgt not in seen:
+                seen.add(tgt)
+                tgt = decls[tgt]
+            self.alias_of[vid] = tgt
+
+    # ---- abrupt exits
+    def unwrap_stmt(self, s):
+        while isinstance(s, dict) and s.get("kind") in ("ExprWithCleanups", "AttributedStmt") and s.get("inner"):
+            s = s["inner"][-1] if s.get("kind") == "AttributedStmt" else s["inner"][0]
+        return s
+
+    def abrupt_kind(self, s):
+        s = self.unwrap_stmt(s)
+        k = s.get("kind")
+        if k == "ReturnStmt":
+            return "return"
+        if k == "BreakStmt":
+            return "break"
+        if k == "ContinueStmt":
+            return "continue"
+        if k == "CXXThrowExpr":
+            return "abort"
+        if k == "CallExpr":
+            try:
+                if self.callee(s).get("name") in ABORT_FNS:
+                    return "abort"
+            except Unsupported:
+                pass
+        return None
+
+    def contains_abrupt(self, stmts):
+        """return / break / continue / process-ending call at this loop level (nested ifs and blocks searched, loops not)"""
+        for s in stmts:
+            s = self.unwrap_stmt(s)
+            if not isinstance(s, dict):
+                continue
+            if self.abrupt_kind(s):
+                return True
+            k = s.get("kind")
+            if k == "CompoundStmt" and self.contains_abrupt(s.get("inner", [])):
+                return True
+            if k == "IfStmt" and self.contains_abrupt(s["inner"][1:]):
+                return True
+        return False
+
+    def definitely_exits(self, stmts):
+        if not stmts:
+            return False
+        s = self.unwrap_stmt(stmts[-1])
+        if self.abrupt_kind(s):
+            return True
+        if s.get("kind") == "CompoundStmt":
+            return self.definitely_exits(s.get("inner", []))
+        if s.get("kind") == "IfStmt" and len(s["inner"]) > 2:
+            return self.definitely_exits([s["inner"][1]]) and self.definitely_exits([s["inner"][2]])
+        return False
+
+    def flat(self, s):
+        s = self.unwrap_stmt(s)
+        return s.get("inner", []) if s.get("kind") == "CompoundStmt" else [s]
+
+    def emit_fn_terminal(self, ret):
+        info = self.info
+        out_terms = []
+        if info.ret_cat is not None:
+            if ret is None:
+                raise Unsupported(self.decl, "missing return")
+            out_terms.append(ret)
+        for kind, i in info.outs:
+            if kind == "param":
+                out_terms.append(info.params[i]["name"])
+        t = "()" if not out_terms else (out_terms[0] if len(out_terms) == 1 else "(" + ", ".join(out_terms) + ")")
+        self.emit(("some " + t) if self.partial else t)
+
+    def emit_term(self, kind, node):
+        if kind == "abort":
+            self.need_partial(node)
+            self.emit("none")
+            return
+        if kind == "return":
+            if self.loop_stack:
+                raise Unsupported(node, "return inside a loop")
+            inner = [c for c in node.get("inner", []) if "kind" in c]
+            ret = None
+            if inner:
+                if self.ret_cat is None:
+                    self.stmt(inner[0])
+                else:
+                    ret = self.ex_hoist(inner[0])
+                    if self.ret_cat == "u64":
+                        ret = self.as_u64(ret)
+                    ret = self.show(ret)
+            self.emit_fn_terminal(ret)
+            return
+        if self.loop_stack:
+            self.loop_stack[-1]["term"](kind)
+            return
+        if kind != "fall":
+            raise Unsupported(node or self.decl, "%s outside a loop" % kind)
+        self.emit_fn_terminal(None)
+
+    def seq(self, stmts):
+        """translate a statement list; every path ends with a terminal"""
+        stmts = list(stmts)
+        for i, s in enumerate(stmts):
+            s0 = self.unwrap_stmt(s)
+            kind = self.abrupt_kind(s0)
+            if kind:
+                self.emit_term(kind, s0)
+                return
+            k = s0.get("kind")
+            if k == "CompoundStmt" and self.contains_abrupt([s0]):
+                self.seq(s0.get("inner", []) + stmts[i + 1:])
+                return
+            if k == "IfStmt" and self.contains_abrupt(s0["inner"][1:]):
+                inner = s0["inner"]
+                c = self.cond(inner[0])
+                then_s = self.flat(inner[1])
+                else_s = self.flat(inner[2]) if len(inner) > 2 else []
+                rest = stmts[i + 1:]
+                if c == "true":
+                    self.seq(then_s + ([] if self.definitely_exits(then_s) else rest))
+                    return
+                if c == "false":
+                    self.seq(else_s + rest)
+                    return
+                saved = dict(self.env)
+                self.emit("if %s then" % c)
+                self.indent += 1
+                self.seq(then_s + ([] if self.definitely_exits(then_s) else rest))
+                self.indent -= 1
+                self.env = dict(saved)
+                self.emit("else")
+                self.indent += 1
+                self.seq(else_s + ([] if self.definitely_exits(else_s) else rest))
+                self.indent -= 1
+                self.env = saved
+                return
+            r = self.stmt(s)
+            if r is not None:
+                raise Unsupported(s, "return value outside a return statement")
+        self.emit_term("fall", None)
+
+    def stmt_ext(self, n):
+        k = n.get("kind")
+        if k == "WhileStmt":
+            inner = [c for c in n.get("inner", [])]
+            self.loop_general(n, None, inner[-2], None, self.flat(inner[-1]))
+            return None
+        if k == "OMPParallelForDirective":
+            # the loop is translated sequentially; `num_threads`, schedule and the data-sharing clauses are dropped
+            # (race freedom and independence of the order are property C12's business)
+            cs = [c for c in n.get("inner", []) if c.get("kind") == "CapturedStmt"]
+            if len(cs) != 1:
+                raise Unsupported(n, "OpenMP directive shape")
+            cd = [c for c in cs[0].get("inner", []) if c.get("kind") == "CapturedDecl"]
+            fs = [c for c in (cd[0].get("inner", []) if cd else []) if c.get("kind") == "ForStmt"]
+            if len(fs) != 1:
+                raise Unsupported(n, "OpenMP directive without a for loop")
+            self.forstmt(fs[0])
+            return None
+        if k in ("BreakStmt", "ContinueStmt", "ReturnStmt", "CXXThrowExpr"):
+            raise Unsupported(n, "%s in a position the translator does not follow" % k)
+        if k == "CallExpr":
+            try:
+                nm = self.callee(n).get("name")
+            except Unsupported:
+                nm = None
+            if nm in ABORT_FNS:
+                raise Unsupported(n, "process-ending call in a position the translator does not follow")
+            return NotImplemented
+        if k == "CXXOperatorCallExpr":
+            t = qt(n)
+            if "ostream" in t:
+                return None      # diagnostic output (std::cerr << ...): not modelled
+            return NotImplemented
+        if k == "UnaryOperator" and n.get("opcode") in ("++", "--"):
+            lhs = n["inner"][0]
+            if classify(qt(lhs))[0] != "u64":
+                raise Unsupported(n, "increment of a non-64-bit value")
+            cur = self.ex(lhs)
+            self.assign(lhs, "(%s %s 1#64)" % (self.as_u64(cur), "+" if n["opcode"] == "++" else "-"))
+            return None
+        return NotImplemented
+
+    # ---- loops
+    def captures(self, outer_env, body_text, exclude):
+        caps = []
+        if re.search(r"(?<![A-Za-z0-9_'.])fuel(?![A-Za-z0-9_'])", body_text):
+            caps.append(("fuel", "nat"))
+        for rid, e in outer_env.items():
+            nm = e["name"]
+            if nm in exclude or e.get("const") is not None:
+                continue
+            if re.search(r"(?<![A-Za-z0-9_'.])%s(?![A-Za-z0-9_'])" % re.escape(nm), body_text) and nm not in [c[0] for c in caps]:
+                caps.append((nm, e["cat"]))
+        return caps
+
+    def lifted_body(self, stmts, term, pre=None):
+        """translate a loop body into its own line buffer (indent of a top-level def body)"""
+        saved_lines, saved_indent = self.lines, self.indent
+        self.lines, self.indent = [], 1
+        self.loop_stack.append({"term": term})
+        try:
+            if pre:
+                pre()
+            else:
+                self.seq(stmts)
+        finally:
+            self.loop_stack.pop()
+            lines = self.lines
+            self.lines, self.indent = saved_lines, saved_indent
+        return lines
+
+    def new_aux(self):
+        self.loopn = getattr(self, "loopn", 0) + 1
+        return "%s_loop%d" % (self.fn_lean_name_for_aux, self.loopn)
+
+    def forstmt_ext(self, n):
+        snap = (len(self.lines), dict(self.env), self.tmpn, self.binds)
+        try:
+            return self.forstmt_basic(n)
+        except Unsupported as e:
+            if isinstance(e, NeedPartial) or e.why not in ("for-init", "for lower bound not constant", "for condition",
+                                                           "for condition lhs", "for increment",
+                                                           "symbolic for bound with <=/!="):
+                raise
+        # not a counted loop: general fuel-bounded loop
+        del self.lines[snap[0]:]
+        self.env, self.tmpn, self.binds = snap[1], snap[2], snap[3]
+        inner = n["inner"]
+        init, cond, inc, body = inner[0], inner[2], inner[3], inner[4]
+        self.loop_general(n, init if init.get("kind") else None, cond if cond.get("kind") else None,
+                          inc if inc.get("kind") else None, self.flat(body))
+
+    def for_fold_ext(self, n, ivid, name, lo, hi_term, step, body_stmts):
+        """counted loop in extended mode: as the basic fold, plus `continue`, bodies that can end the process, captured
+        enclosing loop indices"""
+        env_before = dict((k, v) for k, v in self.env.items() if k != ivid)
+        self.env[ivid] = {"name": name, "cat": "nat", "const": None, "nat": name}
+        vs = [r for r in self.assigned_vars(body_stmts) if r != ivid]
+        names = [self.env[r]["name"] for r in vs]
+        cats = [self.env[r]["cat"] for r in vs]
+        monadic = self.partial
+        if not names and not monadic:
+            self.env.pop(ivid, None)
+            return
+        tup = self.tuple_of(names)
+        outer_env = dict(self.env)
+        old_lo = NAT_LO.get(name)
+        NAT_LO[name] = lo.v
+
+        def term(kind):
+            if kind == "break":
+                raise Unsupported(n, "break in a counted loop")
+            self.emit(("some " + tup) if monadic else tup)
+        try:
+            bl = self.lifted_body(body_stmts, term)
+        finally:
+            if old_lo is None:
+                NAT_LO.pop(name, None)
+            else:
+                NAT_LO[name] = old_lo
+        aux = self.new_aux()
+        caps = self.captures(outer_env, "\n".join(bl), set(names) | {name})
+        sty = self.tuple_type(cats)
+        lines = ["def %s%s (%s : Nat) (st__ : %s) : %s :=" % (
+            aux, "".join(" (%s : %s)" % (c, LEAN_TY[t]) for c, t in caps), name, sty,
+            ("Option (%s)" % sty) if monadic else sty)]
+        for i, nm in enumerate(names):
+            lines.append("  let %s := %s" % (nm, self.proj(i, len(names), "st__")))
+        lines.extend(bl)
+        self.aux_defs = getattr(self, "aux_defs", []) + ["\n".join(lines)]
+        self.env = env_before
+        stv = self.fresh("st")
+        call = "Loop.range%s %d %s %d %s (%s%s)" % ("M" if monadic else "", lo.v, hi_term, step, tup, aux,
+                                                    "".join(" " + c for c, _ in caps))
+        if monadic:
+            self.pbind(call, stv)
+        else:
+            self.emit("let %s := %s" % (stv, call))
+        for i, nm in enumerate(names):
+            self.emit("let %s := %s" % (nm, self.proj(i, len(names), stv)))
+
+    def loop_general(self, n, init, cond, inc, body_stmts):
+        """while / for(;;) / non-counted for: `Loop.whileM step fuel state`.  step evaluates the condition and one iteration"""
+        self.need_partial(n)
+        env_before = dict(self.env)
+        if init is not None:
+            if init.get("kind") != "DeclStmt":
+                raise Unsupported(n, "for-init that is not a declaration")
+            self.stmt(init)
+        if inc is not None and self.contains_abrupt_kind(body_stmts, "continue"):
+            raise Unsupported(n, "continue in a for loop with an increment")
+        parts = list(body_stmts) + ([inc] if inc is not None else []) + ([cond] if cond is not None else [])
+        vs = self.assigned_vars(parts)
+        names = [self.env[r]["name"] for r in vs]
+        cats = [self.env[r]["cat"] for r in vs]
+        tup = self.tuple_of(names)
+        outer_env = dict(self.env)
+
+        def term(kind):
+            self.emit("some (%s, %s)" % ("false" if kind == "break" else "true", tup))
+
+        def pre():
+            c = self.cond(cond) if cond is not None else "true"
+            if c == "false":
+                self.emit("some (false, %s)" % tup)
+                return
+            if c != "true":
+                self.emit("if %s then" % c)
+                self.indent += 1
+            self.seq(list(body_stmts) + ([inc] if inc is not None else []))
+            if c != "true":
+                self.indent -= 1
+                self.emit("else")
+                self.indent += 1
+                self.emit("some (false, %s)" % tup)
+                self.indent -= 1
+        bl = self.lifted_body(None, term, pre=pre)
+        aux = self.new_aux()
+        caps = self.captures(outer_env, "\n".join(bl), set(names))
+        sty = self.tuple_type(cats)
+        lines = ["def %s%s (st__ : %s) : Option (Bool × (%s)) :=" % (
+            aux, "".join(" (%s : %s)" % (c, LEAN_TY[t]) for c, t in caps), sty, sty)]
+        for i, nm in enumerate(names):
+            lines.append("  let %s := %s" % (nm, self.proj(i, len(names), "st__")))
+        lines.extend(bl)
+        self.aux_defs = getattr(self, "aux_defs", []) + ["\n".join(lines)]
+        stv = self.fresh("st")
+        self.pbind("Loop.whileM (%s%s) fuel %s" % (aux, "".join(" " + c for c, _ in caps), tup), stv)
+        for i, nm in enumerate(names):
+            self.emit("let %s := %s" % (nm, self.proj(i, len(names), stv)))
+        # variables declared by the loop (init, body) go out of scope
+        self.env = dict((k, v) for k, v in self.env.items() if k in env_before)
+
+    def contains_abrupt_kind(self, stmts, kind):
+        for s in stmts:
+            s = self.unwrap_stmt(s)
+            if not isinstance(s, dict):
+                continue
+            if self.abrupt_kind(s) == kind:
+                return True
+            k = s.get("kind")
+            if k == "CompoundStmt" and self.contains_abrupt_kind(s.get("inner", []), kind):
+                return True
+            if k == "IfStmt" and self.contains_abrupt_kind(s["inner"][1:], kind):
+                return True
+        return False
 
     # ---- asm
     def asm(self, n):
@@ -1427,6 +2057,8 @@ class FnCtx:
                 mode = "in"
             info.params.append({"name": nm, "cat": cat, "mode": mode, "id": p["id"], "cname": p.get("name", "")})
             self.env[p["id"]] = {"name": nm, "cat": cat, "const": None}
+        if self.ext:
+            self.find_pointer_aliases(body)
         # non-const references / pointers that the body never writes are inputs
         written = set(self.assigned_vars([body]))
         for p in info.params:
@@ -1454,7 +2086,6 @@ class FnCtx:
         for p in info.params:
             if p["mode"] == "out":
                 self.emit("let %s : %s := %s" % (p["name"], LEAN_TY[p["cat"]], ZERO_OF[p["cat"]]))
-        ret = self.stmt(body)
         outs = []
         if info.ret_cat is not None:
             outs.append(("ret", info.ret_cat))
@@ -1462,8 +2093,18 @@ class FnCtx:
             if p["mode"] in ("out", "inout"):
                 outs.append(("param", i))
         info.outs = outs
+        info.partial = self.partial
+        self.info = info
+        if self.ext:
+            # extended mode: every path through the body ends in a terminal emitted by `seq`
+            self.seq(body.get("inner", []))
+            ret = "__ext__"
+        else:
+            ret = self.stmt(body)
         out_terms = []
-        if ret == "__tail__":
+        if ret == "__ext__":
+            pass
+        elif ret == "__tail__":
             if len(outs) != 1:
                 raise Unsupported(d, "tail-if return with out parameters")
         else:
@@ -1487,6 +2128,9 @@ class FnCtx:
             return LEAN_TY[info.params[o[1]]["cat"]]
         rty = " × ".join(oty(o) for o in outs) if outs else "Unit"
         sig = "".join(" (%s : %s)" % (p["name"], LEAN_TY[p["cat"]]) for p in info.params if p["mode"] not in ("out", "merged"))
+        if self.partial:
+            rty = "Option (%s)" % rty
+            sig = " (fuel : Nat)" + sig
         src = "%s::%s  %s" % (d.get("_class"), d["name"], fty)
         text = "/-- `%s` -/\ndef %s%s : %s :=\n%s" % (src, info.lean_name, sig, rty, "\n".join(self.lines))
         if getattr(self, "aux_defs", None):
